@@ -39,5 +39,7 @@ def redisDumpCommands : List (String × List String) := [
   ("npy-object-large", ["SET"]),
   ("npy-datetime", ["SET"]),
   ("npy-compressed", ["SET"]),
-  ("dict-of-arrays", ["SET"])]
+  ("dict-of-arrays", ["SET"]),
+  ("bytes-9MiB", ["SET"]),
+  ("npy-10MB", ["SET"])]
 end Jug.Generated.Dump
